@@ -2,6 +2,7 @@ package vc
 
 import (
 	"fmt"
+	"os"
 	"go/ast"
 	"go/constant"
 	"go/parser"
@@ -23,6 +24,10 @@ type Env struct {
 	loopVars map[string]Val
 	pureCtx  bool
 	unfold   int
+	useLocals bool     // identifiers may refer to source-level locals (loop invariants)
+	quantFacts bool    // inside a quantifier body: side facts are collected for the enclosing quantifier
+	assuming  bool     // the clause is being assumed (side facts are conjoined) rather than proved (side facts are hypotheses)
+	factsP   *[]string // side facts (allocatedness of values read from the heap), assumed with the clause
 }
 
 func (fc *fnCtx) envAt(st, old *State) *Env {
@@ -56,7 +61,22 @@ func (fc *fnCtx) evalClause(env *Env, c Clause) (res string) {
 			panic(e)
 		}
 	}()
-	return env.evalBoolText(c.Text)
+	if env.factsP == nil {
+		env.factsP = new([]string)
+	}
+	*env.factsP = (*env.factsP)[:0]
+	t := env.evalBoolText(c.Text)
+	if len(*env.factsP) > 0 && env.st != nil && !env.pureCtx {
+		fc.assume(env.st, And(*env.factsP...))
+	}
+	return t
+}
+
+// evalAssume evaluates a clause that is going to be assumed.
+func (fc *fnCtx) evalAssume(env *Env, c Clause) string {
+	env.assuming = true
+	defer func() { env.assuming = false }()
+	return fc.evalClause(env, c)
 }
 
 func (env *Env) evalBoolText(text string) string {
@@ -176,8 +196,22 @@ func (env *Env) eval(e ast.Expr) Val {
 	v := env.eval0(e)
 	switch e.(type) {
 	case *ast.SelectorExpr, *ast.IndexExpr, *ast.StarExpr:
-		if v.Typ != nil && v.T != "" && env.fc.inQuant == 0 && v.Addr == nil {
-			if inv := env.fc.typeInvTry(v.Typ, v.T); inv != "true" && inv != "" {
+		if v.Typ != nil && v.T != "" && (env.fc.inQuant == 0 || env.quantFacts) && v.Addr == nil {
+			if env.factsP != nil && env.st != nil && env.st.alloc != "" {
+				switch v.Sort {
+				case "Ref":
+					*env.factsP = append(*env.factsP, App("<", App("ageR", v.T), env.st.alloc))
+				case "Iface":
+					*env.factsP = append(*env.factsP, App("<", App("ageR", App("iref", v.T)), env.st.alloc))
+				case "Slice":
+					*env.factsP = append(*env.factsP, App("<", App("ageR", App("sarr", v.T)), env.st.alloc))
+				}
+			}
+			if inv := env.fc.typeInvTry(v.Typ, v.T); inv != "true" && inv != "" && env.fc.inQuant > 0 {
+				if env.factsP != nil {
+					*env.factsP = append(*env.factsP, inv)
+				}
+			} else if inv != "true" && inv != "" {
 				key := "inv:" + v.T
 				if !env.fc.pureDone[key] {
 					env.fc.pureDone[key] = true
@@ -337,6 +371,11 @@ func (env *Env) evalIdent(e *ast.Ident) Val {
 	}
 	if v, ok := env.vars[e.Name]; ok {
 		return v
+	}
+	if env.useLocals {
+		if v, ok := fc.locals[e.Name]; ok {
+			return v
+		}
 	}
 	if env.pkg != nil {
 		if o := env.pkg.Scope().Lookup(e.Name); o != nil {
@@ -691,10 +730,25 @@ func (env *Env) evalCall(e *ast.CallExpr) Val {
 			}
 			sub.vars[name] = intVal(bv)
 			fc.inQuant++
+			saved := sub.factsP
+			local := []string{}
+			sub.factsP = &local
+			sub.quantFacts = true
 			body := sub.evalBool(e.Args[3])
+			sub.factsP = saved
 			fc.inQuant--
+			if len(local) > 0 {
+				if env.assuming {
+					body = And(And(local...), body)
+				} else {
+					body = Imp(And(local...), body)
+				}
+			}
 			rng := And(App("<=", lo.T, bv), App("<", bv, hi.T))
 			if id.Name == "forall" {
+				if pats := selectPatterns(body, bv); len(pats) > 0 && os.Getenv("GOVC_NOPATTERNS") == "" {
+					return boolVal(fmt.Sprintf("(forall ((%s Int)) (! %s :pattern (%s)))", bv, Imp(rng, body), pats[0]))
+				}
 				return boolVal(fmt.Sprintf("(forall ((%s Int)) %s)", bv, Imp(rng, body)))
 			}
 			return boolVal(fmt.Sprintf("(exists ((%s Int)) %s)", bv, And(rng, body)))
@@ -725,6 +779,53 @@ func (env *Env) evalCall(e *ast.CallExpr) Val {
 			sub.loopVars = nil
 			sub.st = env.old
 			return sub.eval(e.Args[0])
+		case "ghas", "gval":
+			// ghost map attached to an object: ghas(name, obj, key) / gval(name, obj, key); keys and values are interface values
+			name := e.Args[0].(*ast.Ident).Name
+			obj := env.evalRefArg(e.Args[1])
+			k := env.evalAsIface(e.Args[2])
+			d, v := fc.ghostHeaps(name)
+			if id.Name == "ghas" {
+				return boolVal(Select(Select(fc.H(env.st, d), obj), k))
+			}
+			gv := Select(Select(fc.H(env.st, v), obj), k)
+			if env.factsP != nil && (fc.inQuant == 0 || env.quantFacts) && env.st.alloc != "" {
+				*env.factsP = append(*env.factsP, App("<", App("ageR", App("iref", gv)), env.st.alloc))
+			}
+			return Val{T: gv, Sort: "Iface", Typ: types.NewInterfaceType(nil, nil)}
+		case "gsame":
+			// gsame(name, obj): the ghost map of obj is unchanged since the old state
+			name := e.Args[0].(*ast.Ident).Name
+			obj := env.evalRefArg(e.Args[1])
+			d, v := fc.ghostHeaps(name)
+			return boolVal(And(Eq(Select(fc.H(env.st, d), obj), Select(fc.H(env.old, d), obj)), Eq(Select(fc.H(env.st, v), obj), Select(fc.H(env.old, v), obj))))
+		case "gsameexcept":
+			// gsameexcept(name, obj, key): all entries other than key are unchanged since the old state
+			name := e.Args[0].(*ast.Ident).Name
+			obj := env.evalRefArg(e.Args[1])
+			k := env.evalAsIface(e.Args[2])
+			d, v := fc.ghostHeaps(name)
+			bv := Sym(strings.ReplaceAll(strings.Trim(fc.sc.Fresh("q.gk"), "|"), "~", "_"))
+			body := And(Eq(Select(Select(fc.H(env.st, d), obj), bv), Select(Select(fc.H(env.old, d), obj), bv)),
+				Eq(Select(Select(fc.H(env.st, v), obj), bv), Select(Select(fc.H(env.old, v), obj), bv)))
+			return boolVal(fmt.Sprintf("(forall ((%s Iface)) (! %s :pattern ((select (select %s %s) %s))))", bv, Imp(Not(Eq(bv, k)), body), fc.H(env.st, d), obj, bv))
+		case "gforall":
+			// gforall(k, body): quantification over interface-valued keys
+			name := e.Args[0].(*ast.Ident).Name
+			bv := Sym(strings.ReplaceAll(strings.Trim(fc.sc.Fresh("q."+name), "|"), "~", "_"))
+			sub := *env
+			sub.vars = map[string]Val{}
+			for kk, vv := range env.vars {
+				sub.vars[kk] = vv
+			}
+			sub.vars[name] = Val{T: bv, Sort: "Iface", Typ: types.NewInterfaceType(nil, nil)}
+			fc.inQuant++
+			body := sub.evalBool(e.Args[1])
+			fc.inQuant--
+			if pats := selectPatterns(body, bv); len(pats) > 0 {
+				return boolVal(fmt.Sprintf("(forall ((%s Iface)) (! %s :pattern (%s)))", bv, body, pats[0]))
+			}
+			return boolVal(fmt.Sprintf("(forall ((%s Iface)) %s)", bv, body))
 		case "disjoint":
 			a, b := env.eval(e.Args[0]), env.eval(e.Args[1])
 			return boolVal(Or(Not(Eq(App("sarr", a.T), App("sarr", b.T))), Eq(a.T, "nilS"), Eq(b.T, "nilS")))
@@ -768,6 +869,17 @@ func (env *Env) evalCall(e *ast.CallExpr) Val {
 			so := subOld.eval(e.Args[0])
 			body := Eq(fc.sliceElem(env.st, s.T, sl.Elem(), bv), fc.sliceElem(env.old, so.T, sl.Elem(), bv))
 			return boolVal(fmt.Sprintf("(forall ((%s Int)) %s)", bv, Imp(And(App("<=", lo.T, bv), App("<", bv, hi.T)), body)))
+		}
+		// application of a function-typed parameter whose named type has a pure contract
+		if fv, ok := env.vars[id.Name]; ok && fv.Typ != nil {
+			if r, ok := env.applyFuncValue(fv, e.Args); ok {
+				return r
+			}
+		}
+		if fv, ok := fc.locals[id.Name]; ok && env.useLocals && fv.Typ != nil {
+			if r, ok := env.applyFuncValue(fv, e.Args); ok {
+				return r
+			}
 		}
 		// spec function
 		if sp := fc.g.CS.Specs[id.Name]; sp != nil {
@@ -814,6 +926,15 @@ func (env *Env) evalCall(e *ast.CallExpr) Val {
 			bail("method call on untyped value %s", exprStr(e))
 		}
 		obj, index, _ := types.LookupFieldOrMethod(x.Typ, true, env.pkg, sel.Sel.Name)
+		if obj == nil {
+			obj, index = lookupFieldAnyPkg(x.Typ, sel.Sel.Name)
+		}
+		if _, isVar := obj.(*types.Var); isVar {
+			fv := fc.selectField(env.st, x, sel.Sel.Name, env.pkg, false)
+			if r, ok := env.applyFuncValue(fv, e.Args); ok {
+				return r
+			}
+		}
 		m, ok := obj.(*types.Func)
 		if !ok {
 			bail("no method %s on %s", sel.Sel.Name, typeKey(x.Typ))
@@ -832,6 +953,153 @@ func (env *Env) evalCall(e *ast.CallExpr) Val {
 	}
 	bail("unsupported call %s", exprStr(e))
 	return Val{}
+}
+
+// applyFuncValue applies a value of a named function type that has a pure "func type:Name" contract.
+func (env *Env) applyFuncValue(fv Val, argExprs []ast.Expr) (Val, bool) {
+	fc := env.fc
+	nt, ok := fv.Typ.(*types.Named)
+	if !ok || nt.Obj().Pkg() == nil {
+		return Val{}, false
+	}
+	sig, ok := nt.Underlying().(*types.Signature)
+	if !ok {
+		return Val{}, false
+	}
+	con := fc.g.CS.ByFunc[nt.Obj().Pkg().Path()+"::type:"+nt.Obj().Name()]
+	if con == nil || !con.Pure {
+		return Val{}, false
+	}
+	fce := &callee{name: nt.Obj().Pkg().Name() + ".type:" + nt.Obj().Name(), con: con, pkg: nt.Obj().Pkg(), sig: sig}
+	fce.params, fce.ptypes = sigParams(sig, nil)
+	fce.params = append([]string{"fn"}, fce.params...)
+	fce.ptypes = append([]types.Type{nt}, fce.ptypes...)
+	args := []Val{fv}
+	for _, a := range argExprs {
+		args = append(args, env.eval(a))
+	}
+	fc.g.trustedUsed[fce.name] = true
+	return fc.pureApp(fce, con, args, sig.Results()), true
+}
+
+// evalRefArg evaluates an object argument: a pointer, or the address of a struct-valued field.
+func (env *Env) evalRefArg(e ast.Expr) string {
+	if c, ok := e.(*ast.CallExpr); ok {
+		if id, ok := c.Fun.(*ast.Ident); ok && id.Name == "addr" {
+			return env.evalLvalue(c.Args[0]).T
+		}
+	}
+	v := env.eval(e)
+	if v.Sort != "Ref" {
+		bail("expected an object reference, got %s", v.Sort)
+	}
+	return v.T
+}
+
+func (env *Env) evalAsIface(e ast.Expr) string {
+	v := env.eval(e)
+	if v.Sort == "Iface" {
+		return v.T
+	}
+	if v.Typ == nil {
+		bail("cannot box untyped value")
+	}
+	return env.fc.makeIface(env.st, v, v.Typ, types.NewInterfaceType(nil, nil)).T
+}
+
+func (fc *fnCtx) ghostHeaps(name string) (d, v string) {
+	d, v = Sym("Gd!"+name), Sym("Gv!"+name)
+	fc.declHeap(d, "(Array Ref (Array Iface Bool))")
+	fc.declHeap(v, "(Array Ref (Array Iface Iface))")
+	return
+}
+
+// selectPatterns returns candidate instantiation patterns for a bounded
+// quantifier: the innermost (select A idx) subterms whose index mentions the
+// bound variable while A does not.
+func selectPatterns(body, bv string) []string {
+	var pats []string
+	var walk func(t string)
+	walk = func(t string) {
+		if !strings.HasPrefix(t, "(") {
+			return
+		}
+		args := splitSexp(t)
+		if len(args) == 0 {
+			return
+		}
+		if args[0] == "select" && len(args) == 3 && mentions(args[2], bv) && !mentions(args[1], bv) {
+			pats = append(pats, t)
+			return
+		}
+		for _, a := range args[1:] {
+			walk(a)
+		}
+	}
+	walk(body)
+	// prefer patterns over the current (non-old) state: the first one found
+	return pats
+}
+
+func mentions(t, sym string) bool {
+	m := map[string]bool{}
+	symbolsOf(t, m)
+	return m[sym]
+}
+
+// splitSexp splits "(f a b)" into [f a b] at top level.
+func splitSexp(t string) []string {
+	if len(t) < 2 || t[0] != '(' {
+		return nil
+	}
+	t = t[1 : len(t)-1]
+	var out []string
+	d := 0
+	start := -1
+	inq, instr := false, false
+	for i := 0; i < len(t); i++ {
+		c := t[i]
+		switch {
+		case instr:
+			if c == '"' {
+				instr = false
+			}
+		case inq:
+			if c == '|' {
+				inq = false
+			}
+		case c == '"':
+			instr = true
+			if start < 0 {
+				start = i
+			}
+		case c == '|':
+			inq = true
+			if start < 0 {
+				start = i
+			}
+		case c == '(':
+			if d == 0 && start < 0 {
+				start = i
+			}
+			d++
+		case c == ')':
+			d--
+		case c == ' ' || c == '\n' || c == '\t':
+			if d == 0 && start >= 0 {
+				out = append(out, t[start:i])
+				start = -1
+			}
+		default:
+			if start < 0 {
+				start = i
+			}
+		}
+	}
+	if start >= 0 {
+		out = append(out, t[start:])
+	}
+	return out
 }
 
 func refOf(x Val) string {
@@ -936,7 +1204,7 @@ func (env *Env) applySpec(sp *SpecFn, argExprs []ast.Expr) Val {
 		bail("spec %s: arity", sp.Name)
 	}
 	rec := fc.g.specRecursive(sp.Name)
-	specEnv := &Env{fc: fc, st: env.st, old: env.old, pkg: fc.g.pkgByPath[sp.PkgPath], vars: map[string]Val{}, unfold: env.unfold}
+	specEnv := &Env{fc: fc, st: env.st, old: env.old, pkg: fc.g.pkgByPath[sp.PkgPath], vars: map[string]Val{}, unfold: env.unfold, factsP: env.factsP, quantFacts: env.quantFacts, assuming: env.assuming, useLocals: false}
 	if rec {
 		specEnv.unfold++
 	}
@@ -980,8 +1248,17 @@ func (env *Env) applySpec(sp *SpecFn, argExprs []ast.Expr) Val {
 	}
 	sym := Sym("spec!" + sp.Name)
 	if sp.Def != "" && !sp.NoHeap {
-		// heap-reading recursive spec functions are versioned by the heap state they are applied in
-		sym = Sym(fmt.Sprintf("spec!%s@%d", sp.Name, env.st.ver))
+		// heap-reading recursive spec functions are versioned by the heap state they are applied in:
+		// by the terms of the heaps listed in "reads", or by the whole-heap version
+		if len(sp.Reads) > 0 {
+			tok := ""
+			for _, r := range sp.Reads {
+				tok += "/" + fc.H(env.st, fc.heapByShortName(r))
+			}
+			sym = Sym("spec!" + sp.Name + "@" + hashStr(tok))
+		} else {
+			sym = Sym(fmt.Sprintf("spec!%s@%d", sp.Name, env.st.ver))
+		}
 	}
 	fc.sc.Decl(sym, asorts, rs)
 	app := sym
